@@ -2,7 +2,7 @@
 # usage: seeded_regress.sh [names...] -- run the check of the property each
 # seeded change was written for against it (scratch worktree, /repo untouched)
 # and print one line per change: caught / MISSED
-cd /verif
+cd ${VERIF_HOME:-/verif}
 NAMES="$@"; [ -z "$NAMES" ] && NAMES=$(ls seeded)
 for n in $NAMES; do
   [ -f seeded/$n/patch.diff ] || continue
